@@ -309,7 +309,7 @@ def r5_wakeup_path(chk: Check):
         ok = True
         for n in notif:
             conds = [(src(t.ast), pol) for t, pol in g.guards(n) if t.kind == "test"]
-            extra = [c for c in conds if c[0] not in ("name in self.cache", "self.available > 0")]
+            extra = [c for c in conds if c[0] not in ("name in self.cache", "0 < self.available")]
             ok = ok and not extra
         chk.require(ok, chk.fkey(f, "notify condition"), "on_deleted notifies under extra conditions", chk.loc(f.module, f.node))
     # Dependency.check -> dependencychanged -> _readyEvent.set
@@ -321,9 +321,9 @@ def r5_wakeup_path(chk: Check):
     st = tree.func("tokens", "CounterTokenDependency.status")
     g2 = CFG(st.node)
     tests = [n for n in g2.live if n.kind == "test"]
-    ok = len(tests) == 1 and src(tests[0].ast) in ("self.count <= self.token.available", "self.token.available >= self.count")
+    ok = len(tests) == 1 and src(tests[0].ast) == "self.token.available < self.count"
     if ok:
-        tb = [m for b, l in tests[0].succ if l is True for m, _ in b.succ]
+        tb = [m for b, l in tests[0].succ if l is False for m, _ in b.succ]
         ok = any(m.kind == "stmt" and src(m.ast) == "return DependencyStatus.OK" for m in tb)
     chk.require(ok, chk.fkey(st, "OK iff fits"), "a token dependency must be OK exactly when the requested count fits in what is available", chk.loc(st.module, st.node))
 
